@@ -120,6 +120,14 @@ def reference_oracle(S, dA, dB, dR):
         namesA.setdefault(t, set()).add(n)
     twin_targets = {}
     exp_count = {}
+    # names that designate more than one element of a namespace in the result (the kinds of a namespace are looked up as one)
+    per_ns = {}
+    for pm, t, n, cont in top_defs(dR, S):
+        dns = ix.def_field[t][0]
+        if dns in RENAMING_NS and cont == '':
+            per_ns.setdefault(dns, collections.Counter())[n] += 1
+    ambiguous = {dns: set(n for n, k in c.items() if k > 1) for dns, c in per_ns.items()}
+    ambiguous_reported = set()
     stats = {'refs': 0, 'checked': 0, 'holder_absent': 0, 'renamed_targets': 0, 'shared_owner': 0, 'united_owner_other_lists': 0}
     for site, path, target, mi, index, holder, ptype in R.references_in_dump(dB, S, detail=True):
         if mi != 0:
@@ -164,6 +172,10 @@ def reference_oracle(S, dA, dB, dR):
             stats['renamed_targets'] += 1
         if owner_shared:
             stats['shared_owner'] += 1
+        if expected in ambiguous.get(ns, ()) and (ns, expected) not in ambiguous_reported:
+            ambiguous_reported.add((ns, expected))
+            out.append(('ambiguous-target:' + ns, '%s at %s: B named %r; in the result the name %r designates %d elements of the name space %s, '
+                        'so the reference no longer designates one element' % (site, pm, target, expected, per_ns[ns][expected], ns)))
         if expected not in got:
             cls = ('shared-twin-with-renamed-target:%s->%s' % (owner_ns, ns)) if owner_shared else 'site:' + site
             out.append((cls, '%s at %s: B named %r, the representative of that element is %r, the result names %s'
